@@ -174,6 +174,91 @@ example : NoSelfLoops [(2, 1), (1, 0), (2, 3), (1, 2), (4, 2)] ∧ NoTriangles [
     ∧ NoTriangles [(0, 1), (1, 2), (2, 3), (3, 0)]
     ∧ (calcDihedrals [(0, 1), (1, 2), (2, 3), (3, 0)]).length = 4 := by decide
 
+/-! ## exactness for arbitrary bond lists (multigraph input: duplicate bonds, both directions, self-bonds) -/
+
+/-- `t` is an angle of the bond graph: `[a, v, b]` with `a ≠ b` both bonded to `v` -/
+def IsAngle (bonds : List (Nat × Nat)) (t : List Nat) : Prop :=
+  ∃ a v b, t = [a, v, b] ∧ a ≠ b ∧ Bonded bonds v a ∧ Bonded bonds v b
+
+/-- `t` is a bonded chain `[i, j, k, l]` with `i ≠ k`, `j ≠ l` -/
+def IsDihedral (bonds : List (Nat × Nat)) (t : List Nat) : Prop :=
+  ∃ i j k l, t = [i, j, k, l] ∧ IsChain bonds i j k l
+
+/-- **angles_exact.** For EVERY bond list and EVERY list `t` whatsoever: `t` and its reverse occur in the enumeration
+    exactly once in total when `t` is an angle of the graph, and not at all otherwise.  No guard: duplicate listings,
+    both directions and self-bonds included (a self-bond `(v,v)` makes `v` its own neighbour, so `[v, v, b]` is then an
+    "angle" in the sense of `IsAngle`; that is what networkx and the code do). -/
+theorem angles_exact (bonds : List (Nat × Nat)) (t : List Nat) :
+    (IsAngle bonds t → (calcAngles bonds).count t + (calcAngles bonds).count t.reverse = 1) ∧
+    (¬ IsAngle bonds t → (calcAngles bonds).count t + (calcAngles bonds).count t.reverse = 0) := by
+  constructor
+  · rintro ⟨a, v, b, rfl, hne, ha, hb⟩
+    exact angles_exactly_once bonds a v b hne ha hb
+  · intro hn
+    have h1 : t ∉ calcAngles bonds := by
+      intro hm
+      obtain ⟨a, v, b, e, h⟩ := angles_sound bonds t hm
+      exact hn ⟨a, v, b, e, h⟩
+    have h2 : t.reverse ∉ calcAngles bonds := by
+      intro hm
+      obtain ⟨a, v, b, e, hne, ha, hb⟩ := angles_sound bonds _ hm
+      exact hn ⟨b, v, a, by rw [List.reverse_eq_iff.mp e]; rfl, hne.symm, hb, ha⟩
+    rw [List.count_eq_zero.mpr h1, List.count_eq_zero.mpr h2]
+
+/-- **dihedrals_exact.** For EVERY bond list and EVERY list `t`: when `t = [i,j,k,l]` is a bonded chain, `t` and its
+    reverse occur once in total if `j ≠ k`, and TWICE in total if `j = k` (a chain through a self-bond `(j,j)`: the code
+    lists it from both ends — or, when also `i = l`, it is its own reverse and counted on both sides); when `t` is not a
+    bonded chain neither occurs.  Without self-bonds this is "every chain exactly once up to reversal, nothing else". -/
+theorem dihedrals_exact (bonds : List (Nat × Nat)) (t : List Nat) :
+    (∀ i j k l, t = [i, j, k, l] → IsChain bonds i j k l →
+        (calcDihedrals bonds).count t + (calcDihedrals bonds).count t.reverse = if j = k then 2 else 1) ∧
+    (¬ IsDihedral bonds t → (calcDihedrals bonds).count t + (calcDihedrals bonds).count t.reverse = 0) := by
+  have hnd := nodup_calcDihedrals bonds
+  constructor
+  · rintro i j k l rfl hc
+    have hrev : [i, j, k, l].reverse = [l, k, j, i] := rfl
+    rw [hrev, hnd.count, hnd.count]
+    by_cases hjk : j = k
+    · subst hjk
+      obtain ⟨h1, h2, h3, h4, h5⟩ := hc
+      have he : (j, j) ∈ graphEdges bonds := by
+        rcases graphEdges_complete bonds j j h2 with h | h <;> exact h
+      have m1 : [i, j, j, l] ∈ calcDihedrals bonds :=
+        (mem_calcDihedrals _ _ _ _ _).mpr ⟨he, h1.symm, h4, h3, h5.symm⟩
+      have m2 : [l, j, j, i] ∈ calcDihedrals bonds :=
+        (mem_calcDihedrals _ _ _ _ _).mpr ⟨he, h3, h5.symm, h1.symm, h4⟩
+      simp [m1, m2]
+    · simp only [hjk, if_false]
+      rcases (dihedrals_complete bonds i j k l).mpr hc with h | h
+      · have : [l, k, j, i] ∉ calcDihedrals bonds := by
+          intro h'
+          exact hjk (graphEdges_asymm bonds j k ((mem_calcDihedrals _ _ _ _ _).mp h).1
+            ((mem_calcDihedrals _ _ _ _ _).mp h').1)
+        simp [h, this]
+      · have : [i, j, k, l] ∉ calcDihedrals bonds := by
+          intro h'
+          exact hjk (graphEdges_asymm bonds j k ((mem_calcDihedrals _ _ _ _ _).mp h').1
+            ((mem_calcDihedrals _ _ _ _ _).mp h).1)
+        simp [h, this]
+  · intro hn
+    have h1 : t ∉ calcDihedrals bonds := by
+      intro hm
+      obtain ⟨i, j, k, l, e, h⟩ := dihedrals_sound bonds t hm
+      exact hn ⟨i, j, k, l, e, h⟩
+    have h2 : t.reverse ∉ calcDihedrals bonds := by
+      intro hm
+      obtain ⟨i, j, k, l, e, h1', h2', h3', h4', h5'⟩ := dihedrals_sound bonds _ hm
+      exact hn ⟨l, k, j, i, by rw [List.reverse_eq_iff.mp e]; rfl, h3'.symm, h2'.symm, h1'.symm, h5'.symm, h4'.symm⟩
+    rw [List.count_eq_zero.mpr h1, List.count_eq_zero.mpr h2]
+
+/-- the edge inputs, as the real code treats them (compared by the correspondence run): a bond listed three times and in
+    both directions counts once; a self-bond makes the atom its own neighbour — degenerate terms appear and the chain
+    through the self-bond is listed from both ends -/
+example : calcAngles [(0, 1), (1, 0), (1, 2), (2, 1), (0, 1)] = [[0, 1, 2]]
+    ∧ calcDihedrals [(0, 1), (1, 0), (1, 2), (2, 1), (0, 1)] = []
+    ∧ calcAngles [(0, 1), (1, 1), (1, 2)] = [[0, 1, 1], [0, 1, 2], [1, 1, 2]]
+    ∧ calcDihedrals [(0, 1), (1, 1), (1, 2)] = [[0, 1, 1, 0], [0, 1, 1, 2], [2, 1, 1, 0], [2, 1, 1, 2]] := by decide
+
 /-! ## typing of bonds and angles -/
 
 /-- **assign_types_iff** (`assign_bond_types`, `assign_angle_types`; `arity` = 2, 3).  After the assignment
@@ -480,6 +565,104 @@ example :
   refine ⟨fun a b h => by simp only at h; omega, fun a => by simp, ?_, by decide, ⟨_, rfl⟩⟩
   exact List.Perm.swap _ _ _
 
+/-! ## one theorem: invariance of the three assign functions under atom renaming + term-list permutation -/
+
+inductive TermKind where
+  | bond | angle | dihedral
+deriving DecidableEq, Repr
+
+/-- `assign_bond_types` / `assign_angle_types` / `assign_dihedral_types` on a per-atom UFF type LIST (checked entry points) -/
+def assignKind (k : TermKind) (uff : List String) (params : List String → String) (dparams : DKey → DParam)
+    (excl : Option (List Nat)) (terms : List (List Nat)) : Except Err Assigned :=
+  match k with
+  | .bond => assignBonds uff params excl terms
+  | .angle => assignAngles uff params excl terms
+  | .dihedral => assignDihedrals uff dparams excl terms
+
+/-- two results describe the same typing up to the renaming `σ`: the kept terms of the second are the renamed kept terms
+    of the first (in any order), every term of the first is found (renamed) in the second, and it has the same
+    coefficient text there -/
+def Corresponds (σ : Nat → Nat) (r r' : Assigned) : Prop :=
+  r'.terms.Perm (r.terms.map (·.map σ)) ∧
+  (∀ t y y', (t, y) ∈ typed r → (t.map σ, y') ∈ typed r' → r'.coeffs[y']? = r.coeffs[y]?) ∧
+  (∀ t y, (t, y) ∈ typed r → ∃ y', (t.map σ, y') ∈ typed r')
+
+/-- the outcomes of two runs correspond: both succeed with corresponding results, or both fail with the same error -/
+def OutcomeCorresponds (σ : Nat → Nat) : Except Err Assigned → Except Err Assigned → Prop
+  | .ok r, .ok r' => Corresponds σ r r'
+  | .error e, .error e' => e = e'
+  | _, _ => False
+
+/-- **assign_invariant.** ONE statement for bonds, angles and dihedrals, at the level of the entry points that take the
+    per-atom UFF type list.  Rename the atoms by ANY injective `σ` — the per-atom types move along
+    (`uff'[σ a] = uff[a]`, which also says `σ` maps atoms to atoms and non-atoms to non-atoms), the exclusion set is renamed —
+    and list the terms in ANY order.  Then the second run has the corresponding outcome: it fails iff the first fails,
+    with the same error (wrong arity, untyped atom, unsupported torsion), and otherwise keeps exactly the renamed kept
+    terms and gives every term the same coefficient text (for dihedrals: multiplicity about the central bond included). -/
+theorem assign_invariant (k : TermKind) (uff uff' : List String) (params : List String → String)
+    (dparams : DKey → DParam) (excl : Option (List Nat)) (terms terms' : List (List Nat)) (σ : Nat → Nat)
+    (hσ : ∀ a b, σ a = σ b → a = b) (huff : ∀ a, uff'[σ a]? = uff[a]?)
+    (hperm : terms'.Perm (terms.map (·.map σ))) :
+    OutcomeCorresponds σ (assignKind k uff params dparams excl terms)
+      (assignKind k uff' params dparams (excl.map (·.map σ)) terms') := by
+  have hfn := uffFn_rename σ uff uff' huff
+  cases k with
+  | bond =>
+    have hc := checkTerms_rename 2 σ uff uff' huff terms terms' hperm
+    simp only [assignKind, assignBonds, hc]
+    cases checkTerms 2 uff terms with
+    | error e => exact rfl
+    | ok u => exact assign_rename_invariant 2 _ _ params excl terms terms' σ hσ hfn hperm
+  | angle =>
+    have hc := checkTerms_rename 3 σ uff uff' huff terms terms' hperm
+    simp only [assignKind, assignAngles, hc]
+    cases checkTerms 3 uff terms with
+    | error e => exact rfl
+    | ok u => exact assign_rename_invariant 3 _ _ params excl terms terms' σ hσ hfn hperm
+  | dihedral =>
+    have hc := checkTerms_rename 4 σ uff uff' huff terms terms' hperm
+    simp only [assignKind, assignDihedrals, hc]
+    cases hck : checkTerms 4 uff terms with
+    | error e => exact rfl
+    | ok u =>
+      cases u
+      have har : ∀ t ∈ terms, t.length = 4 := ((checkTerms_ok_iff 4 uff terms).mp hck).1
+      show OutcomeCorresponds σ (assignDihedralsCore (uffFn uff) dparams excl terms)
+        (assignDihedralsCore (uffFn uff') dparams (excl.map (·.map σ)) terms')
+      rcases assignDihedralsCore_cases (uffFn uff) dparams excl terms with ⟨⟨r, hr⟩, _⟩ | ⟨herr, t, ht, hu⟩
+      · obtain ⟨r', hr', hcorr⟩ := assign_dihedrals_rename_invariant (uffFn uff) (uffFn uff') dparams excl terms terms'
+          σ hσ hfn hperm har r hr
+        rw [hr, hr']; exact hcorr
+      · rw [herr]
+        have htm : t ∈ terms := by rw [applyExclude_eq_filter] at ht; exact (List.mem_filter.mp ht).1
+        have ht' : t.map σ ∈ applyExclude 4 (excl.map (·.map σ)) terms' :=
+          (applyExclude_rename_perm σ hσ 4 excl terms terms' hperm).mem_iff.mpr (List.mem_map.mpr ⟨t, ht, rfl⟩)
+        have hk := dihedralKey_rename σ hσ (uffFn uff) (uffFn uff') hfn terms terms' hperm har t htm
+        rcases assignDihedralsCore_cases (uffFn uff') dparams (excl.map (·.map σ)) terms' with ⟨_, hall⟩ | ⟨herr', _⟩
+        · exact absurd (hk ▸ hu) (hall _ ht')
+        · rw [herr']; exact rfl
+
+/-- non-vacuity: a five-atom chain H–C–C(ar)–C(ar)–H renumbered by the cyclic shift `a ↦ a+1 mod 5` (extended by the
+    identity), its dihedrals listed in the other order: the hypotheses hold, and both runs succeed -/
+example :
+    let σ : Nat → Nat := fun a => if a < 4 then a + 1 else if a = 4 then 0 else a
+    let uff := ["H_", "C_3", "C_R", "C_R", "H_"]
+    let uff' := ["H_", "H_", "C_3", "C_R", "C_R"]
+    let terms := [[0, 1, 2, 3], [1, 2, 3, 4]]
+    let terms' := [[2, 3, 4, 0], [1, 2, 3, 4]]
+    (∀ a b, σ a = σ b → a = b) ∧ (∀ a, uff'[σ a]? = uff[a]?) ∧ terms'.Perm (terms.map (·.map σ))
+      ∧ (∃ r, assignKind .dihedral uff (fun _ => "") (fun k => .text (" ".intercalate k.1)) (some [0, 1, 2, 3]) terms = .ok r) := by
+  refine ⟨fun a b h => ?_, fun a => ?_, List.Perm.swap _ _ _, ⟨_, rfl⟩⟩
+  · simp only at h; split at h <;> split at h <;> (try split at h) <;> (try split at h) <;> omega
+  · by_cases h4 : a < 4
+    · have : a = 0 ∨ a = 1 ∨ a = 2 ∨ a = 3 := by omega
+      rcases this with rfl | rfl | rfl | rfl <;> rfl
+    · by_cases h5 : a = 4
+      · subst h5; rfl
+      · have h6 : 5 ≤ a := by omega
+        simp only [h4, h5, if_false]
+        rw [List.getElem?_eq_none_iff.mpr (by simpa using h6), List.getElem?_eq_none_iff.mpr (by simpa using h6)]
+
 /-! ## retype -/
 
 /-- periodic-table position used as the second sort key -/
@@ -515,12 +698,73 @@ theorem retype_spec (tbl : List (String × Dec)) (pairText : String → String) 
     · rw [hma, hel, List.map_map, List.getElem?_map, hk]
       simp [Function.comp, hd]
   · rw [hlab]
-    unfold sortedTypes
-    have := List.pairwise_mergeSort (le := fun a b => decide (ptableKey tbl a ≤ ptableKey tbl b))
-      (fun a b c hab hbc => by simp only [decide_eq_true_eq] at *; omega)
-      (fun a b => by simp only [Bool.or_eq_true, decide_eq_true_eq]; omega)
-      ((dedup nt).mergeSort (fun a b => decide (a ≤ b)))
-    exact this.imp (fun h => by simpa using h)
+    refine (sortedTypes_ordered tbl nt).imp ?_
+    intro a b h
+    show ptableKeyOf tbl a ≤ ptableKeyOf tbl b
+    rcases h with h | h
+    · exact Nat.le_of_lt h
+    · exact Nat.le_of_eq h.1
+
+/-- **stable_sort_spec.** The sort used by the model of retype (`sortBy`, structural insertion sort) is a STABLE sort,
+    like python's `list.sort`: the result is a permutation of the input, and whenever every earlier element of the input
+    is `R`-related to every later one (any relation `R`: e.g. "comes before", or the order left by a previous sort), the
+    result is ordered by key, and among equal keys by `R`.  `le` must be a total preorder. -/
+theorem stable_sort_spec {α} (le : α → α → Bool) (R : α → α → Prop)
+    (htrans : ∀ a b c, le a b = true → le b c = true → le a c = true)
+    (htotal : ∀ a b, le a b = true ∨ le b a = true) (l : List α) (hl : l.Pairwise R) :
+    (sortBy le l).Perm l ∧ (sortBy le l).Pairwise (StableOrder le R) :=
+  ⟨sortBy_perm le l, sortBy_stable le R htrans htotal l hl⟩
+
+example : sortBy (fun a b : Nat × String => decide (a.1 ≤ b.1)) [(2, "x"), (1, "b"), (2, "a"), (1, "a")]
+    = [(1, "b"), (1, "a"), (2, "x"), (2, "a")] := by decide
+
+/-- **retype_order.** The full order of the retype tables: the labels are STRICTLY increasing in the lexicographic order
+    (periodic-table position of the element, then the type string) — primary key, secondary string order, and the
+    stability of the second sort that carries the string order into groups of equal element. -/
+theorem retype_order (tbl : List (String × Dec)) (pairText : String → String) (nt : List String) (r : Retyped)
+    (h : retype tbl pairText nt = .ok r) : r.labels.Pairwise (LabelOrder tbl) := by
+  obtain ⟨_, hlab, _⟩ := retype_ok tbl pairText nt r h
+  rw [hlab]; exact sortedTypes_ordered tbl nt
+
+theorem labelOrder_asymm (tbl : List (String × Dec)) (a b : String) (h : LabelOrder tbl a b) : ¬ LabelOrder tbl b a := by
+  rintro (h2 | ⟨h2, h3⟩)
+  · rcases h with h | ⟨h, _⟩ <;> omega
+  · rcases h with h | ⟨_, h4⟩
+    · omega
+    · exact String.lt_asymm h4 h3
+
+/-- **retype_labels_unique** (= `sorted(set(new_types), key=lambda s: (ptable_order(s), s))`).  The label table is
+    DETERMINED by the per-atom types: any listing of the distinct types that is increasing in (periodic-table position,
+    string) is the label table. -/
+theorem retype_labels_unique (tbl : List (String × Dec)) (pairText : String → String) (nt : List String) (r : Retyped)
+    (h : retype tbl pairText nt = .ok r) (l : List String) (hp : l.Perm (dedup nt)) (hs : l.Pairwise (LabelOrder tbl)) :
+    l = r.labels := by
+  have h1 := (retype_spec tbl pairText nt r h).1
+  exact sorted_perm_unique (LabelOrder tbl) (labelOrder_asymm tbl) l r.labels (hp.trans h1.symm) hs
+    (retype_order tbl pairText nt r h)
+
+/-- consequence: retype does not depend on the order of the atoms, only on the SET of their types -/
+theorem retype_labels_perm_invariant (tbl : List (String × Dec)) (pairText : String → String) (nt nt' : List String)
+    (r r' : Retyped) (h : retype tbl pairText nt = .ok r) (h' : retype tbl pairText nt' = .ok r')
+    (hset : ∀ s, s ∈ nt ↔ s ∈ nt') : r.labels = r'.labels ∧ r.elements = r'.elements ∧ r.masses = r'.masses
+      ∧ r.pairCoeffs = r'.pairCoeffs := by
+  have hl : r.labels = r'.labels := by
+    refine sorted_perm_unique (LabelOrder tbl) (labelOrder_asymm tbl) _ _ ?_ (retype_order tbl pairText nt r h)
+      (retype_order tbl pairText nt' r' h')
+    have s1 := retype_spec tbl pairText nt r h
+    have s2 := retype_spec tbl pairText nt' r' h'
+    refine (List.perm_ext_iff_of_nodup s1.2.1 s2.2.1).mpr ?_
+    intro s; rw [s1.2.2.1, s2.2.2.1]; exact hset s
+  obtain ⟨_, _, he, hm, _, hpc⟩ := retype_ok tbl pairText nt r h
+  obtain ⟨_, _, he', hm', _, hpc'⟩ := retype_ok tbl pairText nt' r' h'
+  refine ⟨hl, ?_, ?_, ?_⟩
+  · rw [he, he', hl]
+  · rw [hm, hm', he, he', hl]
+  · rw [hpc, hpc', hl]
+
+/-- the model's sort on the generated table: hydrogen, the carbon types in string order, oxygen, zirconium -/
+example : sortedTypes Mofun.Generated.atomicMasses ["C_R", "O_3", "H_", "Zr3+4", "C_3", "C_2", "H_", "O_2"]
+    = ["H_", "C_2", "C_3", "C_R", "O_2", "O_3", "Zr3+4"] := by decide +kernel
 
 /-- non-vacuity on the generated table of `/repo`: retyping succeeds on a mixed organic/metal type list
     (the resulting tables are compared with the real code by the correspondence run) -/
